@@ -22,7 +22,7 @@ RULE = ('(a) cache histories: 1-14 Path.from_text calls over a small alphabet of
         'toggles, registrations of unrelated fresh types and floods in between, some calls with a caller scope mapping; every call\'s '
         'outcome (value with identity labels / exception class / probe log) is compared with the same call made as the first call of a '
         'freshly forked interpreter that has never evaluated anything; target, spec (repr and container identity structure) and scope '
-        'mapping are snapshotted before and after every call. Non-trivial: a history with a repeat, a toggle, a flood or an overflow.')
+        'mapping are snapshotted before and after every call. (c) 19 hand-written non-mutating scenarios (T arithmetic on lists / sets reached through the target or the scope, reductions, Group, Iter, list / dict literals in argument position at five sites) evaluated repeatedly on the same objects in random orders against a freshly forked interpreter, inputs snapshotted. (d) registrations (exact and fuzzy, get and iterate) after 0-3 earlier lookups against a registry that was registered first. Non-trivial: a history with a repeat, a toggle, a flood or an overflow.')
 ASSUMPTIONS = ['user callables in specs are the catalogue\'s (none mutates its argument)',
                'a registration of an unrelated type must not change other outcomes; registrations that are meant to change outcomes are C13\'s']
 SHARD = 300
@@ -81,6 +81,14 @@ def generate(rng, tier):
         if not any(e[0] == 'call' for e in events):
             events.append(['call', 0])
         out.append({'kind': 'history', 'start': rng.choice(['empty', 'warm', 'warm', 'overflow']), 'pool': pool, 'events': events})
+    names = ['list-plus', 'list-plus-t', 'list-times', 'set-or', 'set-minus', 'scope-plus', 'dict-spec-arith', 'sum-lists', 'flatten', 'merge',
+             'group', 'iter-all', 'default-list', 'default-dict-t', 'call-list-arg', 'invoke-specs', 'bind-list', 'check-default', 'match-default']
+    for _ in range(12 if tier == 'quick' else 120):
+        pick = rng.sample(names, rng.randint(2, 5))
+        out.append({'kind': 'scenarios', 'names': pick, 'order': [rng.choice(pick) for _ in range(rng.randint(3, 9))]})
+    out.append({'kind': 'scenarios', 'names': names, 'order': names + names})
+    for k in (0, 1, 3):
+        out.append({'kind': 'registry', 'lookups_before': k})
     return out
 
 
@@ -240,8 +248,143 @@ def run_history(case):
     return out
 
 
+# ---------- hand-written non-mutating scenarios: T arithmetic on containers, reductions, argument literals ... ----------
+def _scenarios():
+    import glom
+    from glom import T, S, Coalesce, Call, Invoke, Sum, Flatten, Merge, Iter, Check, Match, Val, Spec
+    from glom.grouping import Group
+    return {
+        'list-plus': (lambda: {'xs': [1, 2], 'ys': [3]}, lambda: T['xs'] + [9], None),
+        'list-plus-t': (lambda: {'xs': [1, 2], 'ys': [3]}, lambda: (T['xs'] + T['ys']) + T['xs'], None),
+        'list-times': (lambda: {'xs': [7, 8]}, lambda: (T['xs'] * 2)[T['xs'].__('len__')() - 1], None),
+        'set-or': (lambda: {'s': {1}, 'u': {2}}, lambda: T['s'] | T['u'], None),
+        'set-minus': (lambda: {'s': {1, 2}, 'u': {2}}, lambda: T['s'] - T['u'], None),
+        'scope-plus': (lambda: {'xs': [1, 2]}, lambda: S['base'] + T['xs'], lambda: {'base': [0]}),
+        'dict-spec-arith': (lambda: {'tags': ['a', 'b'], 'seen': {1, 2}}, lambda: {'tags': T['tags'] + ['z'], 'seen': T['seen'] | {3}, 'twice': T['tags'] * 2}, None),
+        'sum-lists': (lambda: [[1], [2, 3]], lambda: Sum(init=list), None),
+        'flatten': (lambda: [[1, [2]], [3]], lambda: Flatten(), None),
+        'merge': (lambda: [{'a': 1}, {'a': 2, 'b': 3}], lambda: Merge(), None),
+        'group': (lambda: [1, 2, 3, 4], lambda: Group({T % 2: [T]}), None),
+        'iter-all': (lambda: [1, 2, 3, 4], lambda: Iter().filter(lambda x: x % 2).map(lambda x: x * 2).all(), None),
+        'default-list': (lambda: {}, lambda: Coalesce('zz', default=[]), None),
+        'default-dict-t': (lambda: {'n': 5}, lambda: Coalesce('zz', default={'k': [T['n']]}), None),
+        'call-list-arg': (lambda: {'sep': '+', 'a': 'x', 'b': 'y'}, lambda: T['sep'].join([T['a'], T['b']]), None),
+        'invoke-specs': (lambda: {'a': [3, 1, 2]}, lambda: Invoke(sorted).specs('a'), None),
+        'bind-list': (lambda: {'n': 1}, lambda: (S(x=[T['n'], [T['n']]]), S.x), None),
+        'check-default': (lambda: {'n': 0}, lambda: ('n', Check(default=[])), None),
+        'match-default': (lambda: {'n': 0}, lambda: Match({'n': str}, default={'bad': [T]}), None),
+    }
+
+
+def _freeze_any(v, depth=0):
+    if depth > 8:
+        return '...'
+    if isinstance(v, dict):
+        return {'dict': [[_freeze_any(k, depth + 1), _freeze_any(x, depth + 1)] for k, x in v.items()]}
+    if isinstance(v, (list, tuple)):
+        return {type(v).__name__: [_freeze_any(x, depth + 1) for x in v]}
+    if isinstance(v, (set, frozenset)):
+        return {'set': sorted(repr(x) for x in v)}
+    if v is None or isinstance(v, (bool, int, str, float)):
+        return v
+    return {'obj': type(v).__name__}
+
+
+def _outcome(fn):
+    try:
+        return {'ok': _freeze_any(fn())}
+    except Exception as e:
+        return {'raise': type(e).__name__}
+
+
+def scenario_outcome(name):
+    """the scenario evaluated once, as the first thing this interpreter does (used in the forked cold child)"""
+    import glom
+    mk_t, mk_s, mk_sc = _scenarios()[name]
+    kw = {'scope': mk_sc()} if mk_sc else {}
+    return _outcome(lambda: glom.glom(mk_t(), mk_s(), **kw))
+
+
+def run_scenarios(case):
+    import glom
+    import copy
+    out = {'problems': []}
+    built = {}
+    for name in case['names']:
+        mk_t, mk_s, mk_sc = _scenarios()[name]
+        built[name] = (mk_t(), mk_s(), mk_sc() if mk_sc else None)
+    colds = {}
+    for name in case['order']:
+        target, spec, scope = built[name]
+        t_before, s_before = copy.deepcopy(target), repr(spec)
+        sc_before = copy.deepcopy(scope)
+        ids_before = struct_ids(target)
+        kw = {'scope': scope} if scope is not None else {}
+        o = _outcome(lambda: glom.glom(target, spec, **kw))
+        if target != t_before or struct_ids(target) != ids_before:
+            out['problems'].append('%s: the target was changed: %r -> %r' % (name, t_before, target))
+        if repr(spec) != s_before:
+            out['problems'].append('%s: the spec was changed' % name)
+        if scope is not None and scope != sc_before:
+            out['problems'].append('%s: the caller\'s scope mapping was changed: %r -> %r' % (name, sc_before, scope))
+        if name not in colds:
+            colds[name] = cold().ask_scenario(name)
+        if o != colds[name]:
+            out['problems'].append('%s: after this history %r, in a fresh interpreter %r' % (name, o, colds[name]))
+    return out
+
+
+def run_registry_history(case):
+    """a registration between calls: the outcome afterwards is that of a registry that was registered first and never looked at"""
+    import glom
+
+    class Rec(dict):
+        pass
+
+    class Node:
+        def __init__(self):
+            self.kids = [1, 2]
+
+    def handler(obj, key):
+        return 'H:%s' % (key,)
+
+    def node_iter(obj):
+        return iter(obj.kids)
+    out = {'problems': []}
+    for exact in (True, False):
+        for op in ('get', 'iterate'):
+            def register(g):
+                if op == 'get':
+                    g.register(Rec, get=handler, exact=exact)
+                else:
+                    g.register(Node, iterate=node_iter, exact=exact)
+
+            def call(g):
+                if op == 'get':
+                    return _outcome(lambda: g.glom(Rec(a=1), 'a'))
+                return _outcome(lambda: g.glom(Node(), [glom.T]))
+            warm = glom.Glommer()
+            for _ in range(case['lookups_before']):
+                call(warm)
+            register(warm)
+            after = call(warm)
+            fresh = glom.Glommer()
+            register(fresh)
+            want = call(fresh)
+            if after != want:
+                out['problems'].append('register(%s, exact=%s) after %d earlier lookups: the next call gives %r, a registry that was never '
+                                       'looked at gives %r' % (op, exact, case['lookups_before'], after, want))
+    return out
+
+
 def run_impl(case):
-    return run_cache(case) if case['kind'] == 'cache' else run_history(case)
+    if case['kind'] == 'cache':
+        return run_cache(case)
+    if case['kind'] == 'scenarios':
+        return run_scenarios(case)
+    if case['kind'] == 'registry':
+        return run_registry_history(case)
+    return run_history(case)
 
 
 TRIVIAL = '(mkCC 0 [] [] [])'
@@ -279,6 +422,8 @@ def nontrivial(case, out):
     if case['kind'] == 'cache':
         texts = [t for _, t in case['ops']]
         return len(set(texts)) < len(texts) or len(set(texts)) > case['max'] + 1
+    if case['kind'] in ('scenarios', 'registry'):
+        return True
     calls = [e[1] for e in case['events'] if e[0] == 'call']
     return len(set(calls)) < len(calls) or any(e[0] != 'call' for e in case['events']) or case['start'] == 'overflow'
 
@@ -286,6 +431,8 @@ def nontrivial(case, out):
 def classify(case, out):
     if case['kind'] == 'cache':
         return 'cache:max%d' % case['max']
+    if case['kind'] in ('scenarios', 'registry'):
+        return case['kind']
     return 'history:%s:%d-calls' % (case['start'], len(out.get('calls', [])))
 
 
